@@ -138,7 +138,7 @@ class MessageSchema(Schema):
     @pre_load
     def to_dict(self, in_data: str, **kwargs: Any) -> dict[str, str]:  # noqa: ANN401, ARG002
         """Transform message string to a dict."""
-        list_data = in_data.rstrip().split(DELIMITER)
+        list_data = in_data.rstrip().split(DELIMITER, len(self.fields) - 1)
         return dict(zip(self.fields, list_data, strict=False))
 
     @post_load
